@@ -1,4 +1,34 @@
 import Driver.Common
+import AnyioModel.Sync.Event
 
-/-- placeholder driver: replies `unimplemented` to every request -/
-def main : IO Unit := Driver.serve () (fun s _ => (s, "unimplemented"))
+namespace Driver.Event
+open AnyioModel.Sync.Event
+
+def outStr : Out → String
+  | .susp => "susp"
+  | .ret => "ret"
+  | .cancelled => "cancelled"
+  | .env => "env"
+
+def parseEv : List String → Option Ev
+  | ["wait", t, pre] => do some (.wait (← t.toNat?) (← Driver.parseBool pre))
+  | ["set"] => some .set
+  | ["step", t] => do some (.step (← t.toNat?))
+  | ["fc", t] => do some (.fc (← t.toNat?))
+  | ["mc", t] => do some (.mc (← t.toNat?))
+  | _ => none
+
+def handle (s : State) : List String → State × String
+  | ["new"] => (init, "ok")
+  | ["obs"] => (s, s!"set={Driver.bool01 s.flag} waiting={s.waiters.length}")
+  | ws =>
+    match parseEv ws with
+    | none => (s, "bad-op")
+    | some e =>
+      match step s e with
+      | none => (s, "DISABLED")
+      | some (s', o) => (s', outStr o)
+
+end Driver.Event
+
+def main : IO Unit := Driver.serve AnyioModel.Sync.Event.init Driver.Event.handle
